@@ -4,11 +4,12 @@
 L=/verif/work/revert_matrix.log; : > $L
 cd /repo || exit 2
 [ -z "$(git status --porcelain --untracked-files=no)" ] || { echo "/repo not clean"; exit 2; }
+# $2 may list several commits (newest first) when a later repair touches the same lines
 try() { name=$1; commit=$2; shift 2
-  git revert -n $commit >/dev/null 2>&1 || { echo "$name: cannot revert $commit" | tee -a $L; git reset -q --hard HEAD; return; }
+  for c in $commit; do git revert -n $c >/dev/null 2>&1 || { echo "$name: cannot revert $c" | tee -a $L; git reset -q --hard HEAD; return; }; done
   for id in "$@"; do for sd in 1 2 3; do
     out=$(cd /verif && VCHECK_NO_REPLAYS=1 VERIF_SEED=$sd ./run $id quick 2>&1); code=$?
-    printf "%-4s revert %s  %s seed=%d exit=%d %s\n" $name $commit $id $sd $code "$(echo "$out" | grep -E '^oracle|worker' | head -1 | cut -c1-100)" | tee -a $L
+    printf "%-4s revert %s  %s seed=%d exit=%d %s\n" $name "$commit" $id $sd $code "$(echo "$out" | grep -E '^oracle|worker' | head -1 | cut -c1-100)" | tee -a $L
   done; done
   git reset -q --hard HEAD
 }
@@ -17,9 +18,9 @@ try F10 af89995 C13
 try F8 159af49 C18
 try F5b 09f9901 C18
 try F7 77b1c92 C11
-try F6 cd1dceb C18
+try F6 '159af49 cd1dceb' C18
 try F4 5888b36 C12 C03
-try F1 06e11e6 C13
+try F1 'af89995 06e11e6' C13
 try F2 f5f0f7f C01 C07
 try F3 390053c C01
 echo DONE >> $L
